@@ -52,6 +52,18 @@ var styleAlignRe = regexp.MustCompile(`text-align:\s*(left|right|center)`)
 // c20Project: normalised DOM with the documented presentational differences projected away.
 var nlBetweenTags = regexp.MustCompile(`>\n+<`)
 
+// c20Flows: the lines of inline content of the output, as a reader sees them (htmlcmp.FlowText
+// of every element with inline content), one per line.
+func c20Flows(out string) string {
+	var fl []string
+	for _, e := range htmlcmp.Project(htmlcmp.ParseFragment(out), htmlcmp.Options{Values: true, RawText: true, Flow: true}) {
+		if e.Tag == "#flow" {
+			fl = append(fl, e.Text)
+		}
+	}
+	return strings.Join(fl, "\n")
+}
+
 func c20Project(out string) []htmlcmp.El {
 	// newlines between tags are layout only; with unclosed raw HTML they would otherwise make
 	// the HTML5 parser reconstruct formatting elements differently on the two sides
@@ -116,6 +128,8 @@ var c20Blocks = []string{
 	"| a | b |\n|:-:|---|\n| 1 | 2 |\n", "---\n", "0. zero\n1. one\n", "<div>\nhtml block\n</div>\n", "<!-- comment block -->\n", "<pre>\nraw\n\n*pre*\n</pre>\n", "<div class=\"raw\">html *not md*</div>\n", "text with `code` and [link](http://l \"T\") and ![img](i.png)\n", "line  \nhard break\n",
 	// code blocks: tabs that straddle the indentation column inside containers, a document that ends inside a code block
 	"- foo\n\n\t\tbar\n\t\tbaz\n", ">\t\tfoo\n", "1. a\n\n   ```\n\tx\n   ```\n", "\tcode\twith tabs\n", "- a\n\n      code in item\n", "```\nfoo", "para\n\n    last line", "~~~go\n\tx := 1\n~~~\n", "| a |\n|---|\n", "| a | b |\n|:-:|--:|\n", "```false\nx\n```\n", "~~~0\nx\n~~~\n",
+	// rows shorter and longer than the header of a table with aligned columns
+	"| a | b | c |\n|:--|--:|:-:|\n| 1 |\n| x | y | z |\n", "| a | b |\n|--:|:-:|\n|\n| 1 | 2 | 3 |\n",
 	// sizes: list starts of nine digits, five levels of nesting, a 13 x 13 table, 13 list items
 	"123456789. big start\n", "- a\n  - b\n    - c\n      - d\n        - e\n", "> a\n> > b\n> > > c\n> > > > d\n", "| h0 | h1 | h2 | h3 | h4 | h5 | h6 | h7 | h8 | h9 | h10 | h11 | h12 |\n|:-:|--:|---|:-:|--:|---|:-:|--:|---|:-:|--:|---|:-:|\n| c00 | c01 | c02 | c03 | c04 | c05 | c06 | c07 | c08 | c09 | c010 | c011 | c012 |\n| c10 | c11 | c12 | c13 | c14 | c15 | c16 | c17 | c18 | c19 | c110 | c111 | c112 |\n| c20 | c21 | c22 | c23 | c24 | c25 | c26 | c27 | c28 | c29 | c210 | c211 | c212 |\n| c30 | c31 | c32 | c33 | c34 | c35 | c36 | c37 | c38 | c39 | c310 | c311 | c312 |\n| c40 | c41 | c42 | c43 | c44 | c45 | c46 | c47 | c48 | c49 | c410 | c411 | c412 |\n| c50 | c51 | c52 | c53 | c54 | c55 | c56 | c57 | c58 | c59 | c510 | c511 | c512 |\n| c60 | c61 | c62 | c63 | c64 | c65 | c66 | c67 | c68 | c69 | c610 | c611 | c612 |\n| c70 | c71 | c72 | c73 | c74 | c75 | c76 | c77 | c78 | c79 | c710 | c711 | c712 |\n| c80 | c81 | c82 | c83 | c84 | c85 | c86 | c87 | c88 | c89 | c810 | c811 | c812 |\n| c90 | c91 | c92 | c93 | c94 | c95 | c96 | c97 | c98 | c99 | c910 | c911 | c912 |\n| c100 | c101 | c102 | c103 | c104 | c105 | c106 | c107 | c108 | c109 | c1010 | c1011 | c1012 |\n| c110 | c111 | c112 | c113 | c114 | c115 | c116 | c117 | c118 | c119 | c1110 | c1111 | c1112 |\n| c120 | c121 | c122 | c123 | c124 | c125 | c126 | c127 | c128 | c129 | c1210 | c1211 | c1212 |\n",
 	"1. i1\n2. i2\n3. i3\n4. i4\n5. i5\n6. i6\n7. i7\n8. i8\n9. i9\n10. i10\n11. i11\n12. i12\n13. i13\n",
@@ -184,6 +198,16 @@ func (c *c20Case) Run(ctx *core.Ctx) {
 				where = "inline/" + c.Ctx
 			}
 			ctx.Violation("reference-mismatch", where+"/"+w, c20Trigger(c)+"/"+t, fmt.Sprintf("src %q\nvuego %q\n ref  %q\n got: %s\nwant: %s", c.Src, clip(out, 400), clip(ref, 400), oneLine(gs), oneLine(ws)))
+		}
+		if gs == ws {
+			// same structure and text: the white space that separates inline content must be the same
+			// too ("**bold**, then" is "bold, then", not "bold , then")
+			gf, wf := c20Flows(out), c20Flows(ref)
+			// (an unclosed raw <b> or <i> makes the HTML parser reopen it in later blocks depending
+			// on layout white space: then the two sides do not have the same lines to compare)
+			if gf != wf && !c20TagSoup(ref) && strings.Count(gf, "\n") == strings.Count(wf, "\n") {
+				ctx.Violation("reference-mismatch", where+"/inline-spacing", c20Trigger(c), fmt.Sprintf("src %q\nvuego %q\n ref  %q\n got flow: %q\nwant flow: %q", c.Src, clip(out, 400), clip(ref, 400), clip(gf, 300), clip(wf, 300)))
+			}
 		}
 	case "source":
 		ctx.Eval(1)
